@@ -39,6 +39,8 @@ ITER_TRAITS = ("std::iter::Iterator", "core::iter::Iterator")
 FN_TRAITS = ("std::ops::FnOnce", "std::ops::FnMut", "std::ops::Fn", "core::ops::FnOnce", "core::ops::FnMut", "core::ops::Fn")
 SCALARS = set(["usize", "u8", "u16", "u32", "u64", "u128", "isize", "i8", "i16", "i32", "i64", "i128", "bool", "char"])
 
+PURE_OBSERVERS = set(["is_empty", "len"])
+
 NONE = ("agg", "adt", OPTION + "::None", (), ())
 UNIT = ("agg", "tuple", "tuple", (), ())
 
@@ -223,6 +225,8 @@ class Evaluator(object):
         return self.frames[site[0]][0]
 
     def loc(self, site):
+        if site and site[0] == "pure":
+            return None
         b = self.frames[site[0]][0]
         bb = site[1][0] if isinstance(site[1], tuple) else site[1]
         return b.loc(bb) if isinstance(bb, int) else b.loc()
@@ -687,6 +691,9 @@ class Evaluator(object):
         return out
 
     def opaque(self, site, c, args, env, path):
+        if c.name in PURE_OBSERVERS and not getattr(c, "local", False) and args and all(self._immutable_input(a) for a in args):
+            # asking the same question about something nobody can change gives the same answer: one atom, not one per site
+            site = ("pure", c.name, args)
         self.callees[site] = c
         v = ("call", site, args)
         path.events.append(("call", site, c, args, v))
@@ -697,6 +704,22 @@ class Evaluator(object):
             for k in _cellrefs(a):
                 env[k] = ("havoc", site, k)
         return [("val", env, path, v)]
+
+    def _immutable_input(self, t):
+        """`t` is (a view of) a parameter of the evaluated function that is passed by shared reference, or a constant."""
+        while isinstance(t, tuple) and t and t[0] == "cast":
+            t = t[2]
+        if not isinstance(t, tuple) or not t:
+            return False
+        if t[0] in ("int", "const"):
+            return True
+        if t[0] == "param":
+            root = self.frames.get(())
+            if root is None:
+                return False
+            ty = root[0].locals[t[1]]["ty"] if t[1] < len(root[0].locals) else ""
+            return ty.startswith("&") and not ty.startswith("&mut ")
+        return False
 
     def _may_inline(self, fid, tb):
         if not self.policy.inline(tb):
